@@ -117,10 +117,23 @@ impl Property for C11 {
                         let mut ok = lim_r == *full_r;
                         if !ok && lim_r.starts_with("Ambiguous") {
                             ok = true;
-                            if let (Ok(Ans::Definite(g, _)), Ok(Ans::Unique(u, _))) = (names.convert(&lg.peeled, &lim_s), names.convert(&lg.peeled, full_s)) {
-                                if !pattern_instance_of(&u, &g) {
-                                    ok = false;
+                            // definite guidance of the interrupted answer must not claim more than the full answer:
+                            // the full substitution (Unique or definite) has to be an instance of it, and a full
+                            // answer without definite guidance cannot be "approximated" by a definite one
+                            match (names.convert(&lg.peeled, &lim_s), names.convert(&lg.peeled, full_s)) {
+                                (Ok(Ans::Definite(g, _)), Ok(Ans::Unique(u, _))) | (Ok(Ans::Definite(g, _)), Ok(Ans::Definite(u, _))) => {
+                                    if !pattern_instance_of(&u, &g) {
+                                        ok = false;
+                                    }
                                 }
+                                (Ok(Ans::Definite(g, _)), Ok(Ans::Ambig)) => {
+                                    // allowed only if the guidance says nothing (all distinct variables)
+                                    let trivial = g.iter().enumerate().all(|(i, t)| matches!(t, crate::model::Ty::CVar(_)) && g.iter().skip(i + 1).all(|u| u != t));
+                                    if !trivial {
+                                        ok = false;
+                                    }
+                                }
+                                _ => {}
                             }
                         }
                         if !ok {
@@ -148,8 +161,9 @@ impl Property for C11 {
                                                 }
                                             }
                                         }
+                                        let co = if program_has_co_cycle(&case.program) && !dc.contains("unbounded") && !dc.contains("repeated-var") { ":coinductive-cycle" } else { "" };
                                         out.fail(
-                                            format!("{}:later-solve-differs:{}", sv.name(), dc),
+                                            format!("{}:later-solve-differs:{}{}", sv.name(), dc, co),
                                             ctx(format!("after the interrupted solve, the same solver answers `{}` with `{}`; a fresh solver says `{}`", lgj.text, got, exp)),
                                         );
                                         recovered = false;
